@@ -14,6 +14,22 @@ from . import templates_rules as T
 NODE = "pyoak.node"
 
 
+def recursion_on_depth(f: Func) -> str | None:
+    """A traversal that calls itself (or a nested function that calls itself / the traversal) once per level."""
+    raw = f.raw or f.node
+    own = raw.name
+    nested = {n.name: n for n in ast.walk(raw) if isinstance(n, (ast.FunctionDef, ast.AsyncFunctionDef)) and n is not raw}
+    for n in ast.walk(raw):
+        if isinstance(n, ast.Call):
+            nm = n.func.attr if isinstance(n.func, ast.Attribute) else (n.func.id if isinstance(n.func, ast.Name) else None)
+            if nm == own and not (isinstance(n.func, ast.Attribute) and isinstance(n.func.value, ast.Call) and dotted(n.func.value.func) == "super"):
+                return f"calls {own}() on the nodes it visits"
+    for name, d in nested.items():
+        if any(isinstance(c, ast.Call) and isinstance(c.func, ast.Name) and c.func.id == name for c in ast.walk(d)):
+            return f"the nested function {name} calls itself"
+    return None
+
+
 def check_worklist(ck: Checker, f: Func, mode: dict[str, Any], expected: str, *, legacy: bool = False, rule: str = "R-WORKLIST") -> Model:
     m = build_model(f, mode)
     order, facts = derived_order(m)
@@ -335,6 +351,13 @@ def run(ck: Checker) -> None:
     def wl() -> None:
         dfs = ck.repo.func(NODE, "ASTNode.dfs")
         bfs = ck.repo.func(NODE, "ASTNode.bfs")
+        for trav in (dfs, bfs):
+            rec = recursion_on_depth(trav)
+            what = f"{trav.qualname} is iterative: the depth of the tree is not bounded by the interpreter's recursion limit"
+            if rec:
+                ck.violation("R-WORKLIST", trav, trav.node, what, construct=f"{trav.qualname}: {rec} (a deep tree raises RecursionError instead of being traversed)")
+                return
+            ck.holds("R-WORKLIST", trav, trav.node, what)
         for mode, exp in (({"bottom_up": False}, "pre-order"), ({"bottom_up": True}, "post-order")):
             m = check_worklist(ck, dfs, mode, exp)
             ck.guard("R-CTRLDEP", lambda m=m: check_ctrldep(ck, dfs, m), dfs)
@@ -345,9 +368,10 @@ def run(ck: Checker) -> None:
     ck.guard("R-GATHER", lambda: check_gather(ck, ck.repo.func(NODE, "ASTNode.gather")))
     ck.guard("R-PRESENCE", lambda: T.r_presence(ck))
     ck.guard("R-ENUM-SHAPE", lambda: T.r_enum_shape(ck))
-    ck.guard("R-ORDER-KEY", lambda: T.r_order_key(ck))
+    ck.guard("R-ORDER-KEY", lambda: T.r_order_key(ck, gens=("_gen_get_child_nodes_func", "_gen_get_child_nodes_with_field_func", "_gen_iter_child_fields_func")))
+    ck.guard("R-ORDER-KEY", lambda: T.r_gen_stateless(ck))
     from .c11 import r_child_kind
     ck.guard("R-CHILD-KIND", lambda: r_child_kind(ck))
-    ck.require_count("R-WORKLIST", 3 + 3 + 6)
+    ck.require_count("R-WORKLIST", 3 + 3 + 6 + 2)
     ck.require_count("R-CTRLDEP", 3)
     ck.require_count("R-GATHER", 4)
